@@ -39,6 +39,8 @@ def arg_shape(e, depth=0, env=None):
     shape of the value they hold on the path being analysed (ShapeDomain)."""
     if isinstance(e, ast.Name) and env and e.id in env:
         return env[e.id]
+    if isinstance(e, ast.Name) and depth == 0 and env is not None and e.id in env.get('$params', ()):
+        return (Aff.sym('len(%s)' % e.id), '?')           # an unsliced parameter: whole vector, extent unknown
     if isinstance(e, ast.Subscript):
         items = e.slice.elts if isinstance(e.slice, ast.Tuple) else [e.slice]
         base = arg_shape(e.value, depth + 1, env)
@@ -69,6 +71,8 @@ def arg_shape(e, depth=0, env=None):
             # rank is only trustworthy when every dimension was subscripted; we cannot know: mark as partial
             return tuple(out) + ('?',)
         return tuple(out)
+    if isinstance(e, ast.Call) and isinstance(e.func, ast.Attribute) and e.func.attr in ('thetaProtector', 'angleMod') and len(e.args) == 1:
+        return arg_shape(e.args[0], depth + 1, env)          # clamps / wraps element-wise: same extent as the argument
     if isinstance(e, ast.Call) and isinstance(e.func, ast.Attribute):
         if e.func.attr in ('gTM',) or False:
             return (Aff(4), Aff(4))
@@ -142,7 +146,14 @@ def site_check(k, c, contract, env):
                     conflict = ('extent `%s` of the contract is %r according to %s but %r according to %s: the kernel '
                                 'indexes %d element(s) past the shorter argument' % (sname, prev, parg, val, src(a)[:50], abs(diff.c)))
                 elif not diff.is_const():
-                    unres.append('cannot compare %r and %r' % (prev, val))
+                    whole = [x for x in (prev, val) if len(x.t) == 1 and next(iter(x.t)).startswith('len(') and x.c == 0]
+                    if len(whole) == 1:
+                        other = val if whole[0] is prev else prev
+                        conflict = ('extent `%s` of the contract is %r for one argument, while %s is passed whole (its length is whatever the caller '
+                                    'supplied): the kernel loops over the longer of the two and indexes past the %r-wide slice whenever the '
+                                    'vector is longer' % (sname, other, next(iter(whole[0].t))[4:-1], other))
+                    else:
+                        unres.append('cannot compare %r and %r' % (prev, val))
             else:
                 binding[sname] = (val, src(a)[:50])
     return binding, conflict, unres
@@ -289,7 +300,9 @@ def check(model, rep):
             binding = {}
             conflict = None
             for st in sorted(envs, key=lambda z: sorted(map(repr, z))):
-                b_, c_, unres_ = site_check(k, c, contract, dict(st))
+                env_ = dict(st)
+                env_['$params'] = tuple(fi.params)
+                b_, c_, unres_ = site_check(k, c, contract, env_)
                 for u in unres_:
                     rep.unresolved_item('R17.2', '%s:%d' % (fi.module.relpath, c.lineno), u)
                 binding.update(b_)
